@@ -8,6 +8,7 @@ import DracoProofs.OctaFloat
 import DracoProofs.SeqScheme
 import DracoProofs.GeneratedSeq
 import DracoProofs.GeneratedTable
+import DracoProofs.GeneratedPred
 /-
   C01 — encode/decode round trip, composed and machine checked for the SEQUENTIAL methods
   (`POINT_CLOUD_SEQUENTIAL_ENCODING`, `MESH_SEQUENTIAL_ENCODING`), against the decoder model
@@ -849,5 +850,19 @@ theorem source_tableSizeClass_is_model (p : Int) (hp : U32 p) :
     RAnsSymbolEncoder.EncodeTable_sizeClass p = sizeClass p := EncodeTable_sizeClass_eq_model p hp
 example : Generated.RAnsSymbolEncoder.EncodeTable_sizeClass 16384 = (none, 2) := by
   rw [source_tableSizeClass_is_model _ (by decide)]; decide
+
+open Generated in
+/-- the loop body of `ComputeParallelogramPrediction<CornerTable, int32_t>` (five statements, cut out of the translated
+    function by AST position): component `c` of the prediction is `next + prev − opp` formed in `int64_t` and converted to
+    `int32_t` (`wrap32`) — what the model's `parallelogramPrediction` pushes — for all `int32_t` data and in-range indices -/
+theorem source_parallelogramComponent_is_model (inData : Int → Int) (vn vp vo c : Int)
+    (hd : ∀ i, I32 (inData i)) (h1 : I32 (vn + c)) (h2 : I32 (vp + c)) (h3 : I32 (vo + c)) :
+    (ComputeParallelogramPrediction_component inData vn c vp vo).2.2.2.2 =
+      [(c, wrap32 (inData (vn + c) + inData (vp + c) - inData (vo + c)))] ∧
+    (ComputeParallelogramPrediction_component inData vn c vp vo).2.2.2.1 =
+      inData (vn + c) + inData (vp + c) - inData (vo + c) :=
+  ComputeParallelogramPrediction_component_eq_model inData vn vp vo c hd h1 h2 h3
+example : (Generated.ComputeParallelogramPrediction_component (fun i => 2^31 - 1 - i) 0 1 3 6).2.2.2.2 = [(1, -2147483647)] := by
+  decide
 
 end Draco.C01
